@@ -45,3 +45,11 @@ pub struct Variants;
 impl Variants {
     #[verifier::external_body] pub fn with_root(v: &Value, root: &ValueArray) -> Variants { unimplemented!() }
 }
+
+// ---- primitives.rs array::append: which element representation the appended array gets
+impl Clone for Repr { fn clone(&self) -> (r: Repr) ensures r == *self { match self { Repr::Byte => Repr::Byte, Repr::Int => Repr::Int, Repr::Float => Repr::Float, Repr::String => Repr::String, Repr::Array => Repr::Array, Repr::Unknown => Repr::Unknown, Repr::Userdata => Repr::Userdata, Repr::Thread => Repr::Thread } } }
+impl Copy for Repr {}
+impl ValueArray {
+    pub fn repr(&self) -> (r: Repr) ensures r == self.repr { self.repr }
+}
+pub struct Append<'b> { pub lhs: &'b ValueArray, pub rhs: &'b ValueArray }
